@@ -136,6 +136,61 @@ def checkValidateAgainstSpec (c : Container) (tok : String) : String :=
       else "SPEC: the reported error names no real defect"
     | none => "bad-case token"
 
+open Derive in
+def fieldAttr? : Sx → Option FieldAttr
+  | .atom "skip" => some .skip | .atom "ser_with" => some .serializeWith
+  | .atom "de_with" => some .deserializeWith | .atom "bound" => some .bound
+  | .atom "schema_params" => some .schemaParams | .atom "schema_funcs" => some .schemaFuncs
+  | .atom "unknown" => some .unknown
+  | _ => none
+
+open Derive in
+def fieldDef? : Sx → Option FieldDef
+  | .list (.atom "f" :: attrs) => do
+    let as ← attrs.mapM fun a => match a with
+      | .list ks => ks.mapM fieldAttr?
+      | _ => none
+    some ⟨as⟩
+  | _ => none
+
+open Derive in
+def itemAttr? : Sx → Option ItemAttr
+  | .list [.atom "use", .atom "true"] => some (.useDiscriminant (some true))
+  | .list [.atom "use", .atom "false"] => some (.useDiscriminant (some false))
+  | .list [.atom "use", .atom "other"] => some (.useDiscriminant none)
+  | .atom "init" => some .init | .atom "crate" => some .crate_ | .atom "unknown" => some .unknown
+  | _ => none
+
+open Derive in
+def itemAttrs? : Sx → Option (List (List ItemAttr))
+  | .list (.atom "attrs" :: as) => as.mapM fun a => match a with
+    | .list ks => ks.mapM itemAttr?
+    | _ => none
+  | _ => none
+
+open Derive in
+def itemDef? : Sx → Option ItemDef
+  | .list [.atom "item", .atom "union"] => some .union_
+  | .list [.atom "item", .atom "struct", attrs, .list (.atom "fields" :: fs)] => do
+    some (.struct_ (← itemAttrs? attrs) (← fs.mapM fieldDef?))
+  | .list [.atom "item", .atom "enum", attrs, .list (.atom "variants" :: vs)] => do
+    let vs ← vs.mapM fun v => match v with
+      | .list (.atom "v" :: .atom d :: fs) => do
+        let discr ← (if d == "_" then some none else d.toInt?.map some)
+        some (VariantDef.mk discr (← fs.mapM fieldDef?))
+      | _ => none
+    some (.enum_ (← itemAttrs? attrs) vs)
+  | _ => none
+
+open Derive in
+def showReject : Reject → String
+  | .union_ => "union" | .multipleBorshAttrs => "multipleBorshAttrs" | .unknownItemKey => "unknownItemKey"
+  | .unknownFieldKey => "unknownFieldKey" | .useDiscriminantOnStruct => "useDiscriminantOnStruct"
+  | .useDiscriminantNotBool => "useDiscriminantNotBool"
+  | .explicitDiscriminantWithoutSetting => "explicitDiscriminantWithoutSetting"
+  | .tooManyVariants => "tooManyVariants" | .discriminantOutOfRange => "discriminantOutOfRange"
+  | .skipConflict => "skipConflict"
+
 def runCase (xs : List Sx) : String :=
   match xs with
   | [.atom "enc", t, v] =>
@@ -246,6 +301,13 @@ def runCase (xs : List Sx) : String :=
         | .failed => "failed"
         | .unwound => "unwound"
       oc ++ " (" ++ " ".intercalate evs ++ ")"
+    | none => "bad-case parse"
+  | [.atom "derive", it] =>
+    match itemDef? it with
+    | some d =>
+      match Derive.accepts d with
+      | none => "accept"
+      | some r => "reject " ++ showReject r
     | none => "bad-case parse"
   | [.atom "cont", st, b] =>
     match strict? st, bytes? b with
